@@ -657,6 +657,18 @@ def run_replay(mod, path):
         print(json.dumps({k: rp[k] for k in rp if k not in ("coqc_output",)}, indent=1)[:3000])
         return 1
     sc = rp["scenario"]
+    if rp.get("obligation") and not (isinstance(sc, dict) and set(sc) == {"suite", "scenario"}):
+        # a concrete input found by an extra obligation (subprocess / oracle-only stream): re-run that obligation
+        print(f"replay {path}: failing input of obligation [{rp['obligation']}]: {json.dumps(sc, default=str)[:1500]}")
+        print(f"failure: {rp.get('failure')}")
+        results = list(mod.extra_checks({"cassis": cassis, "tier": rp.get("tier", "quick"), "seed": rp.get("seed", 0),
+                                         "rng": random.Random(rp.get("seed", 0))})) if hasattr(mod, "extra_checks") else []
+        bad = [r for r in results if not r[1]]
+        for r in bad:
+            print("still failing:", r[0], str(r[2])[:300])
+        if bad:
+            print(f"VIOLATION property={mod.ID} replay={path}")
+        return 1 if bad else 0
     if isinstance(sc, dict) and set(sc) == {"suite", "scenario"}:  # a case of a sub-suite (see run_subsuite)
         subs = getattr(mod, "SUBSUITES", {})
         if sc["suite"] not in subs:
